@@ -1,7 +1,13 @@
 //! One module per property.
 
 pub mod c01;
+pub mod c03;
 pub mod c04;
+pub mod c07;
+pub mod c08;
+pub mod c10;
+pub mod c11;
+pub mod c12;
 pub mod c19;
 pub mod c20;
 pub mod cpusweep;
@@ -15,9 +21,15 @@ pub fn run(id: &str, tier: &str) -> i32 {
   match id {
     "C01" => c01::run("C01", tier),
     "C02" => c01::run("C02", tier),
+    "C03" => c03::run(tier),
     "C04" => c04::run(tier),
     "C05" => cpusweep::run("C05", tier),
     "C06" => cpusweep::run("C06", tier),
+    "C07" => c07::run(tier),
+    "C08" => c08::run(tier),
+    "C10" => c10::run(tier),
+    "C11" => c11::run(tier),
+    "C12" => c12::run(tier),
     "C13" => c13::run(tier),
     "C14" => c14::run(tier),
     "C15" => c15::run(tier),
@@ -56,6 +68,7 @@ pub fn replay(id: &str, path: &str) -> i32 {
 
 pub fn worker(id: &str, args: &[String]) -> i32 {
   match id {
+    "C03" => c03::worker(args),
     "C04" => c04::worker(args),
     _ => {
       eprintln!("no worker mode for {}", id);
